@@ -321,11 +321,19 @@ impl Drop for KillOnDrop {
     }
 }
 
-static PORT_LOCK: Mutex<()> = Mutex::new(());
+/// ports already handed to a session of this process: never handed out twice (a second child that fails
+/// to bind must not be mistaken for the first child's server answering on the same port)
+static USED_PORTS: Mutex<Vec<u16>> = Mutex::new(Vec::new());
 fn free_tcp_port() -> u16 {
-    let _g = PORT_LOCK.lock().unwrap();
-    let l = TcpListener::bind("127.0.0.1:0").unwrap();
-    l.local_addr().unwrap().port()
+    let mut used = USED_PORTS.lock().unwrap();
+    loop {
+        let l = TcpListener::bind("127.0.0.1:0").unwrap();
+        let p = l.local_addr().unwrap().port();
+        if !used.contains(&p) {
+            used.push(p);
+            return p;
+        }
+    }
 }
 
 /// start `serve()` in a child; returns once the port answers
@@ -349,6 +357,12 @@ fn start_server(kind: &str, spec: &str) -> Result<(KillOnDrop, u16), String> {
                 break;
             }
             if let Ok((200, _)) = http(port, "GET", "/.status") {
+                // the answer must come from OUR child: one that could not bind the port has panicked by now
+                std::thread::sleep(Duration::from_millis(25));
+                if let Ok(Some(st)) = child.0.try_wait() {
+                    last = format!("server child exited early (port taken?): {:?}", st);
+                    break;
+                }
                 return Ok((child, port));
             }
             std::thread::sleep(Duration::from_millis(10));
